@@ -1,1 +1,57 @@
-pub fn hello() {}
+//! Shared helpers for the conformance executors.
+//!
+//! The executors are deliberately dumb: they run operations against the real
+//! code and record what happened.  They never decide whether a reply is right;
+//! that is done by TLC against the TLA+ specification.
+
+pub mod ids;
+pub mod trace;
+
+use serde_json::Value;
+use std::io::BufRead;
+
+/// Read behaviours (one JSON object per line) from a file.
+pub fn read_behaviours(path: &str) -> Vec<Value> {
+    let f = std::fs::File::open(path).unwrap_or_else(|e| panic!("open {}: {}", path, e));
+    std::io::BufReader::new(f)
+        .lines()
+        .map(|l| l.expect("read line"))
+        .filter(|l| !l.trim().is_empty())
+        .map(|l| serde_json::from_str(&l).expect("behaviour json"))
+        .collect()
+}
+
+pub fn panic_message(e: Box<dyn std::any::Any + Send>) -> String {
+    if let Some(s) = e.downcast_ref::<&str>() {
+        s.to_string()
+    } else if let Some(s) = e.downcast_ref::<String>() {
+        s.clone()
+    } else {
+        "<non-string panic>".to_string()
+    }
+}
+
+/// Silence the default panic hook's backtrace printing (panics are data).
+pub fn quiet_panics() {
+    std::panic::set_hook(Box::new(|_| {}));
+}
+
+pub fn get_i64(v: &Value, k: &str) -> i64 {
+    v.get(k)
+        .and_then(|x| x.as_i64())
+        .unwrap_or_else(|| panic!("missing int field {} in {}", k, v))
+}
+pub fn get_i64_or(v: &Value, k: &str, d: i64) -> i64 {
+    v.get(k).and_then(|x| x.as_i64()).unwrap_or(d)
+}
+pub fn get_str<'a>(v: &'a Value, k: &str) -> &'a str {
+    v.get(k)
+        .and_then(|x| x.as_str())
+        .unwrap_or_else(|| panic!("missing string field {} in {}", k, v))
+}
+pub fn get_str_or<'a>(v: &'a Value, k: &str, d: &'a str) -> &'a str {
+    v.get(k).and_then(|x| x.as_str()).unwrap_or(d)
+}
+pub fn get_bool_or(v: &Value, k: &str, d: bool) -> bool {
+    v.get(k).and_then(|x| x.as_bool()).unwrap_or(d)
+}
